@@ -10,8 +10,8 @@ from . import pegcommon as P
 
 PID = "C21"
 OPTS = dict(max_rules=3, depth=3, comment=0.05, modifiers=0.1, unord=0.1, preds=0.08, sup=0.08, eol=0.05, sep=0.4,
-            base=["ID", "INT", "STRING"], lits=["a", "a1", "_a", "1a", "+", "a+", "if", "a_", "x", ";", "é"],
-            regroup=0.0, ws_mod=0.0)
+            base=["ID", "INT", "STRING"], lits=["a", "a1", "_a", "1a", "+", "a+", "if", "a_", "x", ";", "é", "a\n", "if\n", "a b"],
+            regroup=0.0, ws_mod=0.0, esc=0.3)
 
 
 def cases_for(rng, n, per):
